@@ -125,6 +125,32 @@ def document(draw):
         cand = tables[1]['cols'][0]['name']
         if cand.upper() not in {t['name'].upper() for t in tables} | {e.upper() for e in enums}:
             tables[0]['name'] = cand
+    # sometimes two tables whose "table name + column name" strings coincide although both parts differ (SPEC.OBJID / SPECOBJ.ID),
+    # the two columns being of different shape: anything remembered per (table, column) must keep them apart
+    if len(tables) > 1 and draw(st.integers(0, 3)) == 0:
+        t0, t1 = tables[0], tables[1]
+        x = draw(st.from_regex(r'[A-Z]{1,3}', fullmatch=True))
+        new1 = t0['name'].upper() + x
+        c1 = t1['cols'][0]
+        newc = x + c1['name']
+        others = {t['name'].upper() for t in tables[2:]} | {e.upper() for e in enums} | {t0['name'].upper()}
+        if new1 not in others and newc not in [c['name'] for c in t0['cols']] and newc.lower() not in Y.RESERVED and new1.lower() not in Y.RESERVED:
+            t1['name'] = new1 if t0['name'].isupper() or draw(st.booleans()) else new1.lower()
+            c0 = t0['cols'][0]
+            c0['name'] = newc
+            if c0['kind'] == c1['kind'] or True:
+                # make the shapes differ: one scalar, one array
+                if bool(c0['arr']) == bool(c1['arr']):
+                    tgt, trows, j = (c0, t0['rows'], 0)
+                    if tgt['arr']:
+                        tgt['arr'] = 0
+                        for r in trows:
+                            r[j] = r[j][0]
+                    else:
+                        tgt['arr'] = 2
+                        for r in trows:
+                            v = r[j].replace('}', ')').replace('{', '(') if isinstance(r[j], str) else r[j]        # elements of string arrays hold no braces
+                            r[j] = [v, v]
     taken = {t['name'].upper() for t in tables}
     keys = draw(st.lists(Y.keyword.filter(lambda k: k.upper() not in taken), max_size=3, unique_by=lambda k: k.upper()))
     pval = st.one_of(
